@@ -153,6 +153,19 @@ pub fn build_root(c: &RawCycle) -> (String, Vec<String>, Pos, &'static str) {
         }
         // root that has already occurred three times
         4 | 5 => {
+            // ... in a perpetual-check skeleton: two whole cycles played, the checking move now completes a third occurrence
+            // (the best line of a deeper iteration may then be ONE move long where a shallower one was longer)
+            if let gen::RawPos::Synth(rs) = &c.root {
+                if let Some((q, cyc)) = crate::props::c10::perpetual_root(rs) {
+                    let mut moves = Vec::new();
+                    let mut cur = q.clone();
+                    for i in 0..8 {
+                        moves.push(cyc[i % 4].uci());
+                        cur = cur.apply(cyc[i % 4]);
+                    }
+                    return (q.fen(), moves, cur, "perpetual_check_root");
+                }
+            }
             let p = gen::position(&c.root, ClockDomain::Engine);
             if let Some(sh) = shuffle_pair(&p) {
                 let mut moves = Vec::new();
@@ -272,6 +285,10 @@ pub fn build_go(c: &RawCycle, root: &Pos) -> GoSpec {
         if let Some(d) = g.depth {
             g.depth = Some(d.min(2));
         }
+    }
+    if g.stop_after_ms.is_some() && c.ponder == 3 && c.b % 2 == 0 {
+        // the GUI abandons the game: `stop` and `ucinewgame` in one go
+        g.newgame_right_after_stop = true;
     }
     if c.ponder == 0 {
         // pondering: `go ponder ...`, then `ponderhit` while the search runs (the engine keeps searching)
